@@ -1030,6 +1030,15 @@ theorem coveredBy_spec (f : Fetch) (ks : List Key) (h : coveredBy f ks = true) :
   · exact absurd (List.isEmpty_iff.mp h1) hne
   · exact List.any_eq_true.mp h1
 
+/-- a starting process trusts only configured keys ... -/
+theorem startupKeys_sub (cfg : List Key) (d : Disk) (k : Key) (h : k ∈ startupKeys cfg d) : k ∈ cfg := by
+  unfold startupKeys at h
+  cases htomb : d.tomb <;> simp only [htomb] at h
+  · exact (List.mem_filter.mp h).1
+  · cases h
+  · cases h
+  · exact (List.mem_filter.mp h).1
+
 /-! ## Specification vocabulary of `Props/C09.lean` and the lemmas about it
 
 `Barred`, `HistOK` (revocation records), `RevocationOf` (what a revocation-only
